@@ -1056,6 +1056,11 @@ fn lbfgs_quad(c: &mut Case) {
     });
 }
 
+/// parameter builders keep every configured value whatever the order of the `with_*` steps
+fn builders_fam(c: &mut Case) {
+    scverif::builders::case(c, "C09")
+}
+
 fn main() {
     runner::main(Spec {
         property: "C09",
@@ -1070,6 +1075,7 @@ fn main() {
             "prediction rows whose decision gap is below 1e-9·(1 + Σ|x_j w_j| + |b|) are skipped",
         ],
         families: vec![
+            Family::new("builders", 300, 3000, builders_fam),
             Family::new("lr_binary", 2500, 50000, lr_binary),
             Family::new("lr_multi", 1500, 30000, lr_multi),
             Family::new("lr_alpha0", 1500, 30000, lr_alpha0),
